@@ -95,13 +95,12 @@ Theorem C18_set_from_list : forall (K : Type) (embK : K -> value) (keqb : K -> K
   forall l, rt_set_from_list (VList (map embK l)) = Ok (rep_set K embK (s_from_list keqb l)).
 Proof. exact set_from_list_refines. Qed.
 
-(* key injectivity: strings, and ints of absolute value below 10^14 *)
+(* key injectivity: strings, and ints (Lua 5.3 prints every digit of an integer) *)
 Theorem C18_key_inj_str : forall s s', rt_tostring (VStr s) = rt_tostring (VStr s') -> s = s'.
 Proof. exact key_inj_str. Qed.
 
-Theorem C18_key_inj_small_int : forall z z', small z = true -> small z' = true ->
-  rt_tostring (vint z) = rt_tostring (vint z') -> z = z'.
-Proof. exact key_inj_small_int. Qed.
+Theorem C18_key_inj_int : forall z z', rt_tostring (vint z) = rt_tostring (vint z') -> z = z'.
+Proof. exact key_inj_int. Qed.
 
 (* hence: every history on string-keyed dicts and sets, and on int-keyed sets and (without remove) dicts *)
 Theorem C18_dict_history_str_keys : forall (V : Type) (embV : V -> value) ops m,
@@ -111,10 +110,10 @@ Theorem C18_dict_history_str_keys : forall (V : Type) (embV : V -> value) ops m,
 Proof. exact dict_history_str_keys. Qed.
 
 Theorem C18_dict_history_int_keys : forall (V : Type) (embV : V -> value) ops m,
-  existsb (is_remove small_int V) ops = false ->
-  rt_drun small_int V emb_small embV ops (rep_dict small_int V emb_small embV m) =
-  Ok (rep_dict small_int V emb_small embV (fst (d_run small_int V small_eqb ops m)),
-      map (emb_dobs V embV) (snd (d_run small_int V small_eqb ops m))).
+  existsb (is_remove Z V) ops = false ->
+  rt_drun Z V vint embV ops (rep_dict Z V vint embV m) =
+  Ok (rep_dict Z V vint embV (fst (d_run Z V Z.eqb ops m)),
+      map (emb_dobs V embV) (snd (d_run Z V Z.eqb ops m))).
 Proof. exact dict_history_int_keys. Qed.
 
 Theorem C18_set_history_str_keys : forall ops s,
@@ -123,14 +122,15 @@ Theorem C18_set_history_str_keys : forall ops s,
 Proof. exact set_history_str_keys. Qed.
 
 Theorem C18_set_history_int_keys : forall ops s,
-  rt_srun small_int emb_small ops (rep_set small_int emb_small s) =
-  Ok (rep_set small_int emb_small (fst (s_run small_int small_eqb ops s)),
-      map emb_sobs (snd (s_run small_int small_eqb ops s))).
+  rt_srun Z vint ops (rep_set Z vint s) =
+  Ok (rep_set Z vint (fst (s_run Z Z.eqb ops s)), map emb_sobs (snd (s_run Z Z.eqb ops s))).
 Proof. exact set_history_int_keys. Qed.
 
-(* key injectivity is FALSE for ints from 10^14 on (%.14g) and for tuples that contain strings *)
-Theorem C18_key_inj_int_refuted : exists z z', z <> z' /\ rt_tostring (vint z) = rt_tostring (vint z').
-Proof. exact key_inj_int_refuted. Qed.
+(* key injectivity is FALSE for floats (14 significant digits) and for tuples that contain strings *)
+Theorem C18_key_inj_float_refuted : exists p q : Q,
+  q_wf p /\ q_wf q /\ ~ Qeq p q /\ rt_tostring (VFloat p) = rt_tostring (VFloat q) /\
+  rt_tostring (VFloat p) = "1.0".
+Proof. exact key_inj_float_refuted. Qed.
 
 Theorem C18_key_inj_tuple_str_refuted : exists a b c d : string,
   (a, b) <> (c, d) /\ rt_tostring (VTuple [VStr a; VStr b]) = rt_tostring (VTuple [VStr c; VStr d]).
@@ -209,15 +209,15 @@ Proof. exact sign_int. Qed.
 (* floor division, 0 for a zero divisor *)
 Theorem C18_div_int : forall a b, rt_idiv (vint a) (vint b) = Ok (vint (a / b)%Z).
 Proof. exact div_int. Qed.
-Theorem C18_floor : forall q, rt_floor (VNum q) = Ok (vint (Qfloor q)).
+Theorem C18_floor : forall q, rt_floor (VFloat q) = Ok (vint (Qfloor q)).
 Proof. exact floor_num. Qed.
-Theorem C18_min_num : forall p q, rt_min (VNum p) (VNum q) = Ok (VNum (q_min_spec p q)).
+Theorem C18_min_num : forall p q, rt_min (VFloat p) (VFloat q) = Ok (VFloat (q_min_spec p q)).
 Proof. exact min_num. Qed.
-Theorem C18_max_num : forall p q, rt_max (VNum p) (VNum q) = Ok (VNum (q_max_spec p q)).
+Theorem C18_max_num : forall p q, rt_max (VFloat p) (VFloat q) = Ok (VFloat (q_max_spec p q)).
 Proof. exact max_num. Qed.
-Theorem C18_abs_num : forall p, rt_abs (VNum p) = Ok (VNum (q_abs_spec p)).
+Theorem C18_abs_num : forall p, rt_abs (VFloat p) = Ok (VFloat (q_abs_spec p)).
 Proof. exact abs_num. Qed.
-Theorem C18_sign_num : forall p, rt_sign (VNum p) = Ok (vint (q_sign_spec p)).
+Theorem C18_sign_num : forall p, rt_sign (VFloat p) = Ok (vint (q_sign_spec p)).
 Proof. exact sign_num. Qed.
 
 (* Non-vacuity: a history on a list of ints through the run-time library. *)
@@ -241,12 +241,12 @@ Print Assumptions C18_dict_from_list.
 Print Assumptions C18_set_history.
 Print Assumptions C18_set_from_list.
 Print Assumptions C18_key_inj_str.
-Print Assumptions C18_key_inj_small_int.
+Print Assumptions C18_key_inj_int.
 Print Assumptions C18_dict_history_str_keys.
 Print Assumptions C18_dict_history_int_keys.
 Print Assumptions C18_set_history_str_keys.
 Print Assumptions C18_set_history_int_keys.
-Print Assumptions C18_key_inj_int_refuted.
+Print Assumptions C18_key_inj_float_refuted.
 Print Assumptions C18_key_inj_tuple_str_refuted.
 Print Assumptions C18_dict_tuple_key_collision.
 Print Assumptions C18_dict_remove_nonstr_noop.
